@@ -698,7 +698,13 @@ def vc_struct_copy():
                             rd = [r for r in getattr(st, "recorded", []) if r[0] == "read"]
                             ob("field_values_read_from_the_source", len(rd) == n and all(getattr(r[2], "uid", None) == sbuf.uid for r in rd))
                             if dyn:
-                                ob("size_word", XB.W8(b.mem, o) == ssize) if False else None
+                                # the copy is a well-formed object of its own: its size word and the offset words of the 2nd.. dynamic
+                                # fields are in place after all field writes (a view of the copy is built from exactly these words)
+                                for (old, new, at) in getattr(st, "word_writes", []):
+                                    XB.same_word(st, new, b.mem, at)
+                                ob("size_word", XB.W8(b.mem, o) == ssize)
+                                for k in dyn[1:]:
+                                    ob(f"offset_word_field{k}", XB.W8(b.mem, o + F[k].attrs["offset"]) == offs.items[k])
                 except Unsupported as e:
                     vc_struct_copy.undecided.append((lab, str(e)[:160]))
                 obs += [x for x in it.obligations if x is not None]
